@@ -71,6 +71,10 @@ def execute(case):
         for i in range(n):
             counter[0] += 1
             out.append({"_tag_": counter[0], "k": rng.choice([1, 2, None]), "s": rng.choice(["x", "y"]), "nest": {"l": [1, 2], "d": {"z": counter[0]}}, "lst": [counter[0]]})
+        if out and rng.random() < 0.5:
+            # heterogeneous, JSON-like data: a flat first item (optional nested values absent), nested values further down
+            out[0]["nest"] = None
+            out[0]["lst"] = None
         return out
     with capture_stdout() as buf:
         for r in range(case["nroots"]):
@@ -95,11 +99,14 @@ def execute(case):
             op = rng.choice(EDIT)
         lst = node.lst
         n = len(_items(lst))
-        other = None
-        # ---- U-ITEMS snapshot of every live item
+        other = other_list() if op in ("semi_join", "anti_join", "inner_join", "left_join") else None
+        # ---- U-ITEMS snapshot of every live item (and of the right-hand argument of a join)
         live = {}
         for nd in nodes:
             for it in _items(nd.lst):
+                live[id(it)] = it
+        if other is not None:
+            for it in _items(other):
                 live[id(it)] = it
         snap = {i: _content(it) for i, it in live.items()}
         recv_ids = {id(it) for it in _items(lst)}
@@ -118,7 +125,6 @@ def execute(case):
                 elif op == "reverse": out = lst.reverse()
                 elif op == "sample": out = lst.sample(rng.randint(0, n + 1))
                 elif op in ("semi_join", "anti_join"):
-                    other = other_list()
                     out = getattr(lst, op)(other, "k") if all("k" in x for x in _items(lst)) else lst.copy()
                 elif op == "drop_na": out = lst.drop_na("k")
                 elif op == "append": out = lst.append(fresh_items(1, 0)[0])
@@ -132,7 +138,6 @@ def execute(case):
                 elif op == "unselect": out = lst.unselect("s", "q")
                 elif op == "fill_missing_keys": out = lst.fill_missing_keys(filled=0, s="filled")
                 elif op in ("inner_join", "left_join"):
-                    other = other_list()
                     if all("k" in x for x in _items(lst)):
                         out = getattr(lst, op)(other, "k")
                     else:
